@@ -57,6 +57,7 @@ type Contract struct {
 	PreCalls []*PreCall // call-site obligations: every call of a matching callee is made only when the condition holds (dominance)
 	EnsuresLocal []*Clause // postconditions that may mention top-level local variables (their value at the return)
 	Assumes  []*Clause
+	AssumePre []*regexp.Regexp // callees whose preconditions are assumed (not proved) at this function's call sites
 	Modifies []*Clause
 	HasMod   bool
 	Loops    map[int]*LoopSpec
@@ -65,6 +66,7 @@ type Contract struct {
 	Opaque   bool // callers use the contract; body is not checked and not claimed
 	TrustFrame bool // the modifies clause is assumed for the body (e.g. writes through an interface-typed destination)
 	Cases    []string
+	NoWrite  []string // "nowrite T.f": the body contains no direct assignment to field f of struct type T (composite literals excepted)
 	Notes    []string
 	Used     bool
 	InitVar  string // "init <Var>": the contract is about the initializer of a package-level variable
@@ -107,7 +109,7 @@ type Lemma struct {
 var clauseKeywords = map[string]bool{
 	"func": true, "props": true, "safety": true, "requires": true, "ensures": true,
 	"modifies": true, "loop": true, "trusted": true, "pure": true, "opaque": true, "ghost": true,
-	"global": true, "lemma": true, "assumes": true, "import": true, "note": true, "cases": true, "end": true, "trustframe": true, "ensures-local": true, "defines": true, "precall": true, "closure": true, "iface": true, "init": true,
+	"global": true, "lemma": true, "assumes": true, "import": true, "note": true, "cases": true, "end": true, "trustframe": true, "ensures-local": true, "defines": true, "precall": true, "closure": true, "iface": true, "init": true, "nowrite": true, "assume-pre": true,
 }
 
 var funcKeyRe = regexp.MustCompile(`^(?:\(\s*\*?\s*(\w+)\s*\)\s*\.\s*(\w+)|(\w+)\s*\.\s*(\w+)|(\w+))`)
@@ -302,6 +304,14 @@ func parseSpecFile(path, relDir string) (*PkgSpec, error) {
 				c := mk("ensures", it.text, it.line, len(cur.EnsuresLocal))
 				c.Label = fmt.Sprintf("ensureslocal%d", len(cur.EnsuresLocal))
 				cur.EnsuresLocal = append(cur.EnsuresLocal, c)
+			case "nowrite":
+				cur.NoWrite = append(cur.NoWrite, strings.Fields(it.text)...)
+			case "assume-pre":
+				re, err := regexp.Compile(strings.TrimSpace(it.text))
+				if err != nil {
+					return nil, fmt.Errorf("%s:%d: %v", path, it.line, err)
+				}
+				cur.AssumePre = append(cur.AssumePre, re)
 			case "assumes":
 				cur.Assumes = append(cur.Assumes, mk("assumes", it.text, it.line, len(cur.Assumes)))
 			case "modifies":
